@@ -2,9 +2,12 @@
    Model: C04_Model (LoopModel, DESIGN B.2); `reach_t` = every schedule of every number of foreign
    threads with arbitrary programs, arbitrary scripts for tasks / callbacks, poll time-outs
    allowed; `reach` = the same without poll time-outs (TSpur is not a step: a state that only a
-   time-out could leave is a stuck state, not a delay).
-   The wake-up test of queueInLoop, the reset of quit_ in loop() and the test in quit() are the
-   `shape`; Gen_C04.gen_shape is regenerated from the current /repo on every run. *)
+   time-out could leave is a stuck state, not a delay).  The loop thread's program is
+   prefix; loop(); later_1; loop(); later_2; loop(); ... : every theorem covers re-entering
+   loop() after it returned, any number of times.
+   The wake-up test of queueInLoop, the place where loop() resets quit_ (on entry / on exit /
+   never) and the test in quit() are the `shape`; Gen_C04.gen_shape is regenerated from the
+   current /repo on every run. *)
 From Coq Require Import List Bool Arith.
 Import ListNotations.
 From Muduo Require Import C04_Model C04_Proofs Gen_C04.
@@ -26,13 +29,13 @@ Print Assumptions C04_gen_is_model.
 (* for every shape (the wake-up test plays no role), every reachable state: a task is executed
    from the queue at most as often as it was submitted; distinct submissions run at most once;
    and nothing is lost: what was submitted is executed, in the running batch, or still queued *)
-Theorem C04_at_most_once : forall sh scr prefix progs s,
-  reach_t sh scr (init prefix progs) s ->
+Theorem C04_at_most_once : forall sh scr prefix later progs s,
+  reach_t sh scr (init prefix later progs) s ->
   (forall t, count_occ Nat.eq_dec (execq (log (sg s))) t <= count_occ Nat.eq_dec (subs (log (sg s))) t) /\
   (NoDup (subs (log (sg s))) -> NoDup (execq (log (sg s)))) /\
   execq (log (sg s)) ++ batch (pc s) ++ pending (sg s) = subs (log (sg s)).
 Proof.
-  intros sh scr prefix progs s R. pose proof (acct_reach _ _ _ _ _ R) as A.
+  intros sh scr prefix later progs s R. pose proof (acct_reach _ _ _ _ _ _ R) as A.
   split; [apply count_execq_le_subs; exact A|]. split; [apply nodup_execq; exact A|exact A].
 Qed.
 Print Assumptions C04_at_most_once.
@@ -49,13 +52,13 @@ Print Assumptions C04_on_loop_thread.
        sequence is a prefix of the submitted sequence, the rest is the batch then the queue;
    (b) what foreign thread i has appended so far, followed by what its remaining code will
        append, is its program's task list: per thread, lock order = program order *)
-Theorem C04_fifo_queue : forall sh scr prefix progs s,
-  reach_t sh scr (init prefix progs) s ->
+Theorem C04_fifo_queue : forall sh scr prefix later progs s,
+  reach_t sh scr (init prefix later progs) s ->
   subs (log (sg s)) = execq (log (sg s)) ++ (batch (pc s) ++ pending (sg s)) /\
   forall i, subs_by (S i) (log (sg s)) ++ fq i s = ptasks (nth i progs []).
 Proof.
-  intros sh scr prefix progs s R. split.
-  - symmetry. exact (acct_reach _ _ _ _ _ R).
+  intros sh scr prefix later progs s R. split.
+  - symmetry. exact (acct_reach _ _ _ _ _ _ R).
   - intros i. eapply thread_order_reach; exact R.
 Qed.
 Print Assumptions C04_fifo_queue.
@@ -82,26 +85,26 @@ Print Assumptions C04_run_in_loop_sync.
    is between its append and a wake-up that will be written; hence no quiescent state (all
    foreign threads finished, loop thread in a poll that only a time-out could end) has an
    unexecuted task. *)
-Theorem C04_no_stall : forall sh scr prefix progs s,
+Theorem C04_no_stall : forall sh scr prefix later progs s,
   wake_ok sh = true ->
-  reach sh scr (init prefix progs) s ->
+  reach sh scr (init prefix later progs) s ->
   NoStall sh s /\ (quiescent s = true -> pending (sg s) = []).
 Proof.
-  intros sh scr prefix progs s W R. unfold wake_ok in W. apply andb_true_iff in W as [W1 W2].
+  intros sh scr prefix later progs s W R. unfold wake_ok in W. apply andb_true_iff in W as [W1 W2].
   assert (N : NoStall sh s) by (eapply no_stall_reach; eauto).
   split; [exact N|apply nostall_quiescent with (sh := sh); exact N].
 Qed.
 Print Assumptions C04_no_stall.
 
 (* PARTIAL: for the pinned wake-up test (any shape with wake_weak) the same holds when the code
-   that runs on the loop thread before loop() only calls quit() -- i.e. everything except the
-   clause "or before loop() was entered" *)
-Theorem C04_no_stall_partial : forall sh scr prefix progs s,
-  wake_weak sh = true -> quits_only prefix = true ->
-  reach sh scr (init prefix progs) s ->
+   that runs on the loop thread outside loop() (before the first call and between calls) only
+   calls quit() -- i.e. everything except the clause "or before loop() was entered" *)
+Theorem C04_no_stall_partial : forall sh scr prefix later progs s,
+  wake_weak sh = true -> quits_only prefix = true -> later_quits_only later = true ->
+  reach sh scr (init prefix later progs) s ->
   NoStall sh s /\ (quiescent s = true -> pending (sg s) = []).
 Proof.
-  intros sh scr prefix progs s W Q R.
+  intros sh scr prefix later progs s W Q Q2 R.
   assert (N : NoStall sh s) by (eapply no_stall_reach; eauto).
   split; [exact N|apply nostall_quiescent with (sh := sh); exact N].
 Qed.
@@ -112,7 +115,7 @@ Print Assumptions C04_no_stall_partial.
    can end, and task 0 is in the queue.  Witness: prefix [AQueue 0], no foreign thread,
    four steps of the loop thread. *)
 Theorem C04_no_stall_refuted : exists scr prefix progs s,
-  reach pinned_shape scr (init prefix progs) s /\
+  reach pinned_shape scr (init prefix [] progs) s /\
   quiescent s = true /\ pending (sg s) <> [] /\ looping (sg s) = true.
 Proof.
   exists (fun _ => []), stall_witness_prefix, [], stall_witness_state.
@@ -124,13 +127,14 @@ Print Assumptions C04_no_stall_refuted.
 Definition C04_current_tree_has_F2 : bool := negb (wake_pre Gen_C04.gen_shape).
 Theorem C04_no_stall_current_tree :
   if wake_pre Gen_C04.gen_shape
-  then forall scr prefix progs s, reach Gen_C04.gen_shape scr (init prefix progs) s ->
+  then forall scr prefix later progs s, reach Gen_C04.gen_shape scr (init prefix later progs) s ->
          NoStall Gen_C04.gen_shape s /\ (quiescent s = true -> pending (sg s) = [])
-  else exists scr prefix progs s, reach Gen_C04.gen_shape scr (init prefix progs) s /\
+  else exists scr prefix progs s, reach Gen_C04.gen_shape scr (init prefix [] progs) s /\
          quiescent s = true /\ pending (sg s) <> [] /\ looping (sg s) = true.
 Proof.
   destruct (wake_pre Gen_C04.gen_shape) eqn:E.
-  - intros scr prefix progs s R. apply C04_no_stall with (scr := scr) (prefix := prefix) (progs := progs); [|exact R].
+  - intros scr prefix later progs s R.
+    apply C04_no_stall with (scr := scr) (prefix := prefix) (later := later) (progs := progs); [|exact R].
     unfold wake_ok. rewrite C04_gen_wake_weak, E. reflexivity.
   - exists (fun _ => []), stall_witness_prefix, [], stall_witness_state.
     apply stall_witness_reach. exact E.
@@ -146,9 +150,22 @@ Definition ex_labels : list label :=
   [TLoop; TLoop; TF 0; TF 1; TF 1; TF 1; TLoop; TRead; TLoop; TF 0; TF 0; TF 0; TLoop; TLoop; TLoop; TLoop; TLoop;
    TLoop; TLoop; TLoop; TLoop; TLoop; TLoop; TLoop; TRead; TLoop; TLoop; TLoop; TLoop; TLoop].
 Example C04_example_reach :
-  exists s, run repaired_shape ex_scr (init [] [[AQueue 1; ARun 2]; [AQueue 3; AOffer 9]]) ex_labels = Some s /\
+  exists s, run repaired_shape ex_scr (init [] [] [[AQueue 1; ARun 2]; [AQueue 3; AOffer 9]]) ex_labels = Some s /\
             execq (log (sg s)) = [1; 3; 5; 2; 4] /\ quiescent s = true /\ pending (sg s) = [].
 Proof. eexists. split; [vm_compute; reflexivity|]. vm_compute. auto. Qed.
 Example C04_shapes_inhabited :
-  wake_ok repaired_shape = true /\ wake_weak pinned_shape = true /\ wake_pre pinned_shape = false.
+  wake_ok repaired_shape = true /\ wake_ok fixed_shape = true /\
+  wake_weak pinned_shape = true /\ wake_pre pinned_shape = false.
 Proof. vm_compute. auto. Qed.
+(* re-entering loop(): a foreign quit ends the first call; between the calls the loop thread queues
+   task 7 (woken: the loop is not looping) and calls runInLoop(8); the second call runs 7 and the
+   foreign thread's task 3, and is ended by the second quit; everything ran once, in lock order *)
+Definition ex2_labels : list label :=
+  [TLoop; TLoop; TF 0; TF 0; TLoop; TRead; TLoop; TLoop; TLoop; TLoop; TLoop; TLoop;
+   TLoop; TLoop; TLoop; TLoop; TF 0; TF 0; TLoop; TLoop; TRead; TLoop; TLoop; TLoop; TLoop; TLoop;
+   TF 0; TF 0; TLoop; TLoop].
+Example C04_example_reentry :
+  exists s, run fixed_shape (fun _ => []) (init [] [[AQueue 7; ARun 8]] [[AQuit; AQueue 3; AQuit]]) ex2_labels = Some s /\
+            execq (log (sg s)) = [7; 3] /\ pc s = LDone /\ pending (sg s) = [] /\
+            length (filter (fun e => match e with ERet => true | _ => false end) (log (sg s))) = 2.
+Proof. eexists. split; [vm_compute; reflexivity|]. vm_compute. auto. Qed.
